@@ -117,9 +117,9 @@ func (lp *Listpack) Next() []byte {
 		negmax = math.MaxUint64 // uint64_max
 		lp.p += lpEncodeBacklen(1 + 8)
 	} else {
-		uval = 12345678900000000 + uint64(fireByte)
-		negstart = math.MaxUint64
-		negmax = 0
+		// not an entry header (0xFF is the end marker): the data is damaged. Returning a
+		// value without advancing would let callers that count entries loop for ever.
+		panic(fmt.Errorf("listpack: invalid entry encoding 0x%02x at offset %d", fireByte, inx))
 	}
 
 	/* We reach this code path only for integer encodings.
